@@ -134,7 +134,7 @@ def check_address(E, R, got, kind, testnet, sec, tag=""):
 KINDS = ("p2pkh", "p2wpkh", "p2sh_p2wpkh", "p2wsh", "p2sh_p2wsh")
 
 
-def address(E, R, kind, testnet, watch, node_flag=None):
+def address(E, R, kind, testnet, watch, node_flag=None, key33=False):
     """node_flag: network flag of the node object when it differs from the wallet's (a node parsed with the default flag
     and handed to a wallet of the other network): the wallet's own network decides the address prefix"""
     k, kb = cm.sym_scalar(E, "k")
@@ -143,7 +143,8 @@ def address(E, R, kind, testnet, watch, node_flag=None):
     if watch:
         node = R.bip32.PubKeyNode(key=E.H.sec(k), chain_code=c, testnet=nf)
     else:
-        node = R.bip32.PrvKeyNode(key=kb, chain_code=c, testnet=nf)
+        # key33: the form a node parsed from an extended private key holds (00 || k)
+        node = R.bip32.PrvKeyNode(key=(b"\x00" + kb) if key33 else kb, chain_code=c, testnet=nf)
     w = R.base_wallet.BaseWallet(master=node, testnet=testnet)
     got = E.run(getattr(w, kind + "_address"), node)
     check_address(E, R, got, kind, testnet, E.H.sec(k))
@@ -235,6 +236,7 @@ def cases(tier):
             for watch in (False, True):
                 cs.append(Case("addr[%s,testnet=%s,watch=%s]" % (kind, t, watch), "address", dict(kind=kind, testnet=t, watch=watch),
                                weight=5))
+            cs.append(Case("addr[%s,testnet=%s,key=00||k]" % (kind, t), "address", dict(kind=kind, testnet=t, watch=False, key33=True), weight=5))
             cs.append(Case("addr[%s,testnet=%s,node flag=%s]" % (kind, t, not t), "address",
                            dict(kind=kind, testnet=t, watch=(kind in ("p2wsh", "p2pkh")), node_flag=not t), weight=5))
             cs.append(Case("two_nodes[%s,testnet=%s]" % (kind, t), "two_nodes", dict(kind=kind, testnet=t), weight=8))
